@@ -1,6 +1,7 @@
 package mc
 
 import (
+	"bufio"
 	"crypto/sha256"
 	"encoding/hex"
 	"fmt"
@@ -180,9 +181,21 @@ func init() {
 var tqMu sync.Mutex
 var lastTQ []*timerqueue.Queue
 
+// Tainted is set once a world hung: goroutines of that world may still call
+// the process-wide hooks, so the process must not be used for further work.
+var Tainted bool
+
+// current is the world that owns the process-wide hooks. Worlds must not
+// overlap: a new one closes its predecessor first.
+var current *World
+
 // NewWorld builds a fresh gateway for the scenario.
 func NewWorld(sc *Scenario) *World {
+	if current != nil && !current.closed {
+		current.Close()
+	}
 	w := &World{Sc: sc, cids: map[string]string{}, resGen: map[string]int{}, resName: map[interface{}]string{}, Data: map[string]interface{}{}}
+	current = w
 	w.S = NewSched()
 	w.S.onFrame = w.onFrame
 	w.S.onHTTPWait = w.onHTTPWait
@@ -575,6 +588,10 @@ func (w *World) HTTP(rq HTTPReq) *HTTPCall {
 	for k, v := range rq.Header {
 		req.Header.Set(k, v)
 	}
+	return w.serve(rq, req)
+}
+
+func (w *World) serve(rq HTTPReq, req *http.Request) *HTTPCall {
 	h := &HTTPCall{Req: rq, Rec: httptest.NewRecorder(), done: make(chan struct{}), Start: w.time}
 	h.Label = fmt.Sprintf("http%d", len(w.HTTPs)+1)
 	w.mu.Lock()
@@ -596,6 +613,48 @@ func (w *World) HTTP(rq HTTPReq) *HTTPCall {
 		close(h.done)
 	}()
 	return h
+}
+
+// Drain takes default actions until nothing is enabled (or max actions).
+// It returns false if the limit was hit or a closure hung.
+func (w *World) Drain(max int) bool {
+	if !w.S.Settle() {
+		w.Hung = true
+	}
+	w.pollHTTP()
+	w.flushFrames()
+	for i := 0; i < max; i++ {
+		if w.Hung {
+			return false
+		}
+		en := w.Enabled()
+		if len(en) == 0 {
+			return true
+		}
+		w.Do(en[0])
+	}
+	return false
+}
+
+// Inject sends a raw client frame on a connection and registers nothing.
+func (w *World) Inject(c *Conn, frame []byte) {
+	w.time++
+	w.Trace = append(w.Trace, "inject")
+	c.VC.Inject(frame)
+	if !w.S.Settle() {
+		w.Hung = true
+	}
+	w.flushFrames()
+}
+
+// HTTPRaw parses a raw request with http.ReadRequest (like the real front
+// door) and serves it. It returns nil if the standard library rejects it.
+func (w *World) HTTPRaw(raw string) *HTTPCall {
+	req, err := http.ReadRequest(bufio.NewReader(strings.NewReader(raw)))
+	if err != nil {
+		return nil
+	}
+	return w.serve(HTTPReq{Method: req.Method, URL: req.RequestURI}, req)
 }
 
 // pollHTTP completes HTTP calls whose temporary connection is gone.
@@ -645,10 +704,11 @@ func (w *World) Close() {
 		return
 	}
 	w.closed = true
-	w.S.Release()
 	if w.Hung {
-		return // leak; the process is going to be recycled
+		Tainted = true
+		return // parked goroutines are leaked; the process must be recycled
 	}
+	w.S.Release()
 	for _, c := range w.Conns {
 		if !c.Disposed {
 			c.Disposed = true
